@@ -335,10 +335,21 @@ class Check:
         self.violations.append(dict(key=key, what=what, replay=rp, found=found_input))
         return True
 
-    def proof_gate(self, extra_targets=(), search=None):
+    def proof_gate(self, extra_targets=(), search=None, also=()):
         """Run the Coq side. If an obligation does not check, `search` (a callable) is asked for a concrete
-        failing input; otherwise the violation is reported as no-failing-input-found."""
+        failing input; otherwise the violation is reported as no-failing-input-found.
+        also: further property files (Props/Properties_<name>.v) whose theorems this property relies on as well."""
         res = check_props(self.pid, extra_targets)
+        for other in also:
+            r2 = check_props(other)
+            res["obligations"] += r2["obligations"]
+            res["discharged"] += r2["discharged"]
+            res["theorems"] += r2["theorems"]
+            res["hygiene"] = res["hygiene"] or r2["hygiene"]
+            if not r2["ok"]:
+                res["ok"] = False
+                res["failed_at"] = (res.get("failed_at") or []) + (r2.get("failed_at") or []) + [("Props/Properties_%s.v" % other, "")]
+            res["log"] += r2["log"]
         self.proof = res
         if res["hygiene"]:
             self.violation("coq-hygiene", "forbidden vernacular in the development: %s" % res["hygiene"][:5],
